@@ -158,6 +158,52 @@ func c17Lattice(ctx *core.Ctx) {
 	}
 }
 
+// c17WorkdirLattice: the project directory is the one given to WithWorkingDirectory when there is one
+// (name fallback and default .env), whatever the position of the option among the others.
+func c17WorkdirLattice(ctx *core.Ctx) {
+	for _, mode := range []string{"none", "alt-first", "alt-before-dotenv", "alt-last", "empty-path", "alt-then-empty"} {
+		for _, dir := range []string{"proj", "MyProj.Dir", "日本"} {
+			for _, alt := range []string{"AltProj", "_.", "Ω-alt", "proj"} {
+				for _, named := range []bool{false, true} {
+					for _, withDot := range []int{0, 1, 2, 3} {
+						a := c17Args{Dir: dir, AltDir: alt, OS: []string{"W=os"}, Probe: "${V-unset}|${COMPOSE_PROJECT_NAME}"}
+						if named {
+							a.Files = [][]c17Doc{{{}}, {{Name: sp("${V:-fromfile}")}}}
+						} else {
+							a.Files = [][]c17Doc{{{}}}
+						}
+						if withDot&1 != 0 {
+							a.DotEnv = &c17EnvFile{Lines: [][2]string{{"V", "cfg"}}}
+						}
+						if withDot&2 != 0 {
+							a.AltDot = &c17EnvFile{Lines: [][2]string{{"V", "alt"}, {"X", "${W}"}}}
+						}
+						env := []c17Opt{{Op: "osenv"}, {Op: "envfiles"}, {Op: "dotenv"}}
+						wd := c17Opt{Op: "workdir", A: true}
+						switch mode {
+						case "none":
+							a.Opts = env
+						case "alt-first":
+							a.Opts = append([]c17Opt{wd}, env...)
+						case "alt-before-dotenv":
+							a.Opts = []c17Opt{env[0], env[1], wd, env[2]}
+						case "alt-last":
+							a.Opts = append(append([]c17Opt{}, env...), wd)
+						case "empty-path":
+							a.Opts = append([]c17Opt{{Op: "workdir"}}, env...)
+						case "alt-then-empty":
+							a.Opts = append([]c17Opt{wd, {Op: "workdir"}}, env...)
+						}
+						ctx.Count("lattice-workdir")
+						ctx.Count("workdir=" + mode)
+						ctx.Add("c17load", a)
+					}
+				}
+			}
+		}
+	}
+}
+
 func c17Perms(l []c17Opt) [][]c17Opt {
 	if len(l) <= 1 {
 		return [][]c17Opt{append([]c17Opt{}, l...)}
@@ -363,6 +409,23 @@ func c17Random(r *rand.Rand, documented, malformed bool) c17Args {
 			}
 		}
 	}
+	// WithWorkingDirectory: first (documented) or anywhere
+	if r.Intn(4) == 0 {
+		a.AltDir = pick(r, c17DirNames)
+		if r.Intn(2) == 0 {
+			f := c17RandEnvFile(r, "", malformed)
+			a.AltDot = &f
+		}
+		wd := []c17Opt{{Op: "workdir", A: r.Intn(5) > 0}}
+		if r.Intn(6) == 0 {
+			wd = append(wd, c17Opt{Op: "workdir", A: r.Intn(2) == 0})
+		}
+		at := 0
+		if !documented {
+			at = r.Intn(len(a.Opts) + 1)
+		}
+		a.Opts = append(a.Opts[:at:at], append(wd, a.Opts[at:]...)...)
+	}
 	// WithName anywhere
 	if r.Intn(3) == 0 {
 		v := pick(r, c17ValidNames)
@@ -411,19 +474,20 @@ func runC17(ctx *core.Ctx) {
 
 	// 1. exhaustive lattices of the property
 	c17Lattice(ctx)
+	c17WorkdirLattice(ctx)
 	ctx.Res.Exhaustive = true
 
 	// 2. seeded random worlds: documented order (spec oracle applies), then any order (model correspondence + invariants)
-	for i := 0; i < ctx.Pick(6000, 400000); i++ {
+	for i := 0; i < ctx.Pick(6000, 150000); i++ {
 		ctx.Count("random-documented-order")
 		ctx.Add("c17load", c17Random(ctx.Rng, true, false))
 	}
-	for i := 0; i < ctx.Pick(4000, 300000); i++ {
+	for i := 0; i < ctx.Pick(4000, 100000); i++ {
 		ctx.Count("random-any-order")
 		ctx.Add("c17load", c17Random(ctx.Rng, false, false))
 	}
 	// 3. malformed stream
-	for i := 0; i < ctx.Pick(2500, 150000); i++ {
+	for i := 0; i < ctx.Pick(2500, 50000); i++ {
 		ctx.Count("malformed")
 		ctx.Add("c17load", c17Random(ctx.Rng, ctx.Rng.Intn(2) == 0, true))
 	}
